@@ -1,39 +1,735 @@
+mod c12;
+mod c15;
 mod c17;
+mod cfgworld;
 mod gen;
 mod hook;
+mod minimise;
+mod parsework;
 mod prng;
 mod sched;
+mod worker;
 mod world;
 
-fn main() {
-    let args: Vec<String> = std::env::args().collect();
-    let n: u64 = args.get(1).and_then(|x| x.parse().ok()).unwrap_or(2000);
-    let seed: u64 = std::env::var("VERIF_SEED").ok().and_then(|x| x.parse().ok()).unwrap_or(1);
-    let mut stats = c17::GenStats { grammars_rejected: 0, refs_too_expensive: 0 };
-    let mut probes = c17::Probes::default();
-    let mut classes: std::collections::BTreeMap<String, u64> = Default::default();
-    let t0 = std::time::Instant::now();
-    let mut shown = 0;
-    let only: Option<u64> = std::env::var("ONLY").ok().and_then(|x| x.parse().ok());
-    for i in 0..n {
-        if let Some(o) = only { if i != o { continue; } }
-        let rs = prng::run_seed(seed, "C17", i);
-        let mut wr = prng::Rng::stream(rs, "workload");
-        let Some((w, refs)) = c17::gen_workload(&mut wr, &mut stats) else { continue };
-        let spec = c17::gen_sched(rs);
-        if std::env::var("TRACE").is_ok() { eprintln!("run {i} {:?} {:?} {:?} {:?}", spec, w.grammar_text, w.input, w.script); }
-        let out = c17::execute(&w, spec);
-        let v = c17::check_history(&w, &refs, &out, &mut probes);
-        let key = v.as_ref().map(|v| v.class.clone()).unwrap_or_else(|| "ok".into());
-        *classes.entry(key).or_default() += 1;
-        if let Some(v) = v {
-            if shown < 6 {
-                shown += 1;
-                println!("--- run {i} seed {rs} {:?}\n{}\ninput={:?}\nscript={:?}\nVIOL {:?}", out.ending, w.grammar_text, w.input, w.script, v);
-                for l in c17::render_history(&out.events).iter().rev().take(25).rev() { println!("   {l}"); }
+use serde_json::{json, Map, Value};
+use std::collections::BTreeMap;
+use std::path::Path;
+use std::process::{Command, Stdio};
+use std::time::{Duration, Instant};
+
+fn arg_val(args: &[String], name: &str) -> Option<String> {
+    args.iter().position(|a| a == name).and_then(|i| args.get(i + 1).cloned())
+}
+fn has_flag(args: &[String], name: &str) -> bool {
+    args.iter().any(|a| a == name)
+}
+
+fn verif_seed() -> u64 {
+    std::env::var("VERIF_SEED").ok().and_then(|x| x.parse().ok()).unwrap_or(1)
+}
+
+fn level_of(prop: &str) -> &'static str {
+    match prop {
+        "C12" => "fault_enumeration",
+        _ => "exploration",
+    }
+}
+
+/// (worker budget seconds, max runs per worker)
+fn budget(prop: &str, tier: &str) -> (u64, u64) {
+    match (prop, tier) {
+        ("C17", "quick") => (45, u64::MAX),
+        ("C17", _) => (1500, u64::MAX),
+        ("C12", "quick") => (40, u64::MAX),
+        ("C12", _) => (1200, u64::MAX),
+        ("C15", "quick") => (40, u64::MAX),
+        (_, _) => (1200, u64::MAX),
+    }
+}
+
+fn merge(a: &mut Value, b: &Value) {
+    match (a, b) {
+        (Value::Object(ma), Value::Object(mb)) => {
+            for (k, vb) in mb {
+                match ma.get_mut(k) {
+                    Some(va) => merge(va, vb),
+                    None => {
+                        ma.insert(k.clone(), vb.clone());
+                    }
+                }
+            }
+        }
+        (Value::Array(xa), Value::Array(xb)) => xa.extend(xb.iter().cloned()),
+        (Value::Bool(x), Value::Bool(y)) => *x = *x && *y,
+        (va, vb) => {
+            if let (Some(x), Some(y)) = (va.as_u64(), vb.as_u64()) {
+                *va = json!(x + y);
+            } else if let (Some(x), Some(y)) = (va.as_f64(), vb.as_f64()) {
+                // wall clock: keep the maximum
+                *va = json!(x.max(y));
             }
         }
     }
-    println!("{n} runs in {:?}; classes {classes:?}; rejected {} expensive {}", t0.elapsed(), stats.grammars_rejected, stats.refs_too_expensive);
-    println!("{}", probes.to_json());
+}
+
+struct Known {
+    status: String,
+    id: String,
+    key: String,
+    what: String,
+}
+
+fn load_known(prop: &str) -> Vec<Known> {
+    let mut out = vec![];
+    if let Ok(t) = std::fs::read_to_string("/verif/known_findings.json") {
+        if let Ok(v) = serde_json::from_str::<Value>(&t) {
+            if let Some(a) = v.get("entries").and_then(|e| e.as_array()) {
+                for e in a {
+                    if e.get("property").and_then(|p| p.as_str()) != Some(prop) {
+                        continue;
+                    }
+                    out.push(Known {
+                        status: e.get("status").and_then(|x| x.as_str()).unwrap_or("").to_string(),
+                        id: e.get("id").and_then(|x| x.as_str()).unwrap_or("").to_string(),
+                        key: e.get("match").and_then(|x| x.as_str()).unwrap_or("").to_string(),
+                        what: e.get("what").and_then(|x| x.as_str()).unwrap_or("").to_string(),
+                    });
+                }
+            }
+        }
+    }
+    out
+}
+
+fn self_exe() -> String {
+    std::env::current_exe().unwrap().to_string_lossy().to_string()
+}
+
+struct Triage {
+    violations: u64,
+    lines: Vec<String>,
+    harness_error: Option<String>,
+    known_seen: BTreeMap<String, u64>,
+}
+
+/// Regenerates failing run `index`, minimises it, writes the replay file and verifies it in a
+/// fresh process. Returns the replay path.
+fn minimise_and_write(prop: &str, seed: u64, entry: &Value, spurious: bool) -> Result<String, String> {
+    // in a child process: keeps the engine's stderr chatter out of the check's output and a
+    // pathological minimisation from taking the orchestrator down
+    let mut c = Command::new(self_exe());
+    c.args(["minimise", prop, &seed.to_string(), &entry.to_string()]);
+    if spurious {
+        c.arg("--with-spurious-wake");
+    }
+    let out = c
+        .stdout(Stdio::piped())
+        .stderr(Stdio::null())
+        .output()
+        .map_err(|e| e.to_string())?;
+    let txt = String::from_utf8_lossy(&out.stdout).to_string();
+    for l in txt.lines() {
+        if let Some(p) = l.strip_prefix("MINIMISED ") {
+            return Ok(p.trim().to_string());
+        }
+    }
+    Err(txt.lines().last().unwrap_or("minimiser produced no output").to_string())
+}
+
+fn minimise_main(args: &[String]) -> i32 {
+    let prop = args.get(2).cloned().unwrap_or_default();
+    let seed: u64 = args.get(3).and_then(|x| x.parse().ok()).unwrap_or(1);
+    let entry: Value = match args.get(4).and_then(|x| serde_json::from_str(x).ok()) {
+        Some(v) => v,
+        None => return 2,
+    };
+    world::init();
+    hook::install();
+    match minimise_inproc(&prop, seed, &entry, has_flag(args, "--with-spurious-wake")) {
+        Ok(p) => {
+            println!("MINIMISED {p}");
+            0
+        }
+        Err(e) => {
+            println!("ERROR {e}");
+            2
+        }
+    }
+}
+
+fn minimise_inproc(prop: &str, seed: u64, entry: &Value, spurious: bool) -> Result<String, String> {
+    std::fs::create_dir_all("/verif/replays").ok();
+    let class = entry.get("class").and_then(|x| x.as_str()).unwrap_or("").to_string();
+    let sig = entry.get("signature").and_then(|x| x.as_str()).unwrap_or("").to_string();
+    let index = entry.get("index").and_then(|x| x.as_u64());
+    let corpus_index = entry.get("corpus_index").and_then(|x| x.as_u64());
+    let tag = match (index, corpus_index) {
+        (Some(i), _) => format!("{seed}-{i}"),
+        (_, Some(c)) => format!("{seed}-corpus{c}"),
+        _ => format!("{seed}-x"),
+    };
+    let path = format!("/verif/replays/{prop}-{tag}.json");
+    let value: Value = if prop == "C17" {
+        let i = index.ok_or("no index")?;
+        let (w, spec, _) = worker::c17_case(seed, i, spurious);
+        let (w, refs) = w.ok_or("workload does not regenerate")?;
+        let out = c17::execute(&w, spec);
+        let mut probes = c17::Probes::default();
+        let v = c17::check_history(&w, &refs, &out, &mut probes).ok_or("failure does not regenerate from its seed")?;
+        if v.class != class || v.signature != sig {
+            return Err(format!("regenerated run fails differently: {} / {}", v.class, v.signature));
+        }
+        let first = minimise::Fail17 {
+            w,
+            decisions: out.decisions.clone(),
+            v,
+            hash: c17::history_hash(&out.events),
+            history: c17::render_history(&out.events),
+        };
+        let m = minimise::minimise17(first, 60);
+        minimise::replay_json17(&m, seed, Some(i))
+    } else if class.starts_with("cfg:") {
+        let i = index.ok_or("no index")?;
+        let small = worker::small_corpus();
+        let (w, spec) = if prop == "C12" {
+            match worker::c12_case(seed, i, &small) {
+                worker::Case12::Cfg(w, s) => (w, s),
+                _ => return Err("case does not regenerate".into()),
+            }
+        } else {
+            match worker::c15_case(seed, i, &small) {
+                worker::Case15::Cfg(w, s) => (w, s),
+                _ => return Err("case does not regenerate".into()),
+            }
+        };
+        let run = cfgworld::execute(&w, spec).ok_or("grammar rejected")?;
+        let mut p = cfgworld::CfgProbes::default();
+        let v = cfgworld::check(prop, &w, &run, &mut p).ok_or("failure does not regenerate from its seed")?;
+        let first = minimise::FailCfg {
+            prop: prop.to_string(),
+            w,
+            decisions: run.world.decisions.clone(),
+            class: v.class,
+            detail: v.detail,
+            hash: c17::history_hash(&run.world.events),
+            history: c17::render_history(&run.world.events),
+        };
+        let m = minimise::minimise_cfg(first, 40);
+        minimise::replay_json_cfg(&m, seed, Some(i))
+    } else {
+        let (job, ast) = if let Some(c) = corpus_index {
+            let corpus = parsework::fixed_corpus();
+            (corpus.jobs.get(c as usize).ok_or("bad corpus index")?.clone(), None)
+        } else {
+            let i = index.ok_or("no index")?;
+            let small: Vec<parsework::Job> = vec![];
+            if prop == "C12" {
+                match worker::c12_case(seed, i, &small) {
+                    worker::Case12::Sweep(j, a) => (j, a),
+                    _ => return Err("case does not regenerate".into()),
+                }
+            } else {
+                match worker::c15_case(seed, i, &small) {
+                    worker::Case15::Diff(j, a) => (j, a),
+                    _ => return Err("case does not regenerate".into()),
+                }
+            }
+        };
+        let m = minimise::minimise_job(prop, &job, ast).ok_or("failure does not regenerate from its seed")?;
+        minimise::replay_json_job(&m, seed, index)
+    };
+    std::fs::write(&path, serde_json::to_string_pretty(&value).unwrap()).map_err(|e| e.to_string())?;
+    // replay in a fresh process: must fail the same way
+    let out = Command::new(self_exe())
+        .args(["replay", &path])
+        .stdout(Stdio::piped())
+        .stderr(Stdio::null())
+        .output()
+        .map_err(|e| e.to_string())?;
+    let txt = String::from_utf8_lossy(&out.stdout).to_string();
+    if !txt.contains("reproduced=true") {
+        return Err(format!("replay of {path} in a fresh process did not reproduce: {txt}"));
+    }
+    if txt.contains("hash_match=false") {
+        return Err(format!("replay of {path} reproduced the class but with a different history"));
+    }
+    Ok(path)
+}
+
+fn triage(prop: &str, seed: u64, violations: &[Value], spurious: bool) -> Triage {
+    let known = load_known(prop);
+    let mut groups: BTreeMap<String, Vec<&Value>> = BTreeMap::new();
+    for v in violations {
+        let key = format!(
+            "{}|{}",
+            v.get("class").and_then(|x| x.as_str()).unwrap_or(""),
+            v.get("signature").and_then(|x| x.as_str()).unwrap_or("")
+        );
+        groups.entry(key).or_default().push(v);
+    }
+    let mut t = Triage {
+        violations: 0,
+        lines: vec![],
+        harness_error: None,
+        known_seen: BTreeMap::new(),
+    };
+    for (key, mut vs) in groups {
+        vs.sort_by_key(|v| v.get("index").and_then(|x| x.as_u64()).unwrap_or(u64::MAX));
+        let is_known = known.iter().find(|k| k.status == "known" && k.key == key);
+        if key.starts_with("harness") {
+            t.harness_error = Some(format!(
+                "harness inconsistency: {}",
+                vs[0].get("detail").and_then(|x| x.as_str()).unwrap_or("")
+            ));
+            continue;
+        }
+        // one minimised, replay-verified example per group (two for unknown groups)
+        let take = if is_known.is_some() { 1 } else { 2 };
+        let mut produced = 0;
+        let mut last_err = None;
+        for v in vs.iter().take(8) {
+            if produced >= take {
+                break;
+            }
+            match minimise_and_write(prop, seed, v, spurious) {
+                Ok(path) => {
+                    produced += 1;
+                    match is_known {
+                        Some(k) => {
+                            *t.known_seen.entry(k.id.clone()).or_default() += vs.len() as u64;
+                            t.lines.push(format!(
+                                "KNOWN-FINDING: property={prop} {} — {} ({} occurrences in this run; example replay={path})",
+                                k.id,
+                                k.what,
+                                vs.len()
+                            ));
+                        }
+                        None => {
+                            t.violations += 1;
+                            t.lines.push(format!("VIOLATION property={prop} replay={path}"));
+                            t.lines.push(format!(
+                                "  class={} detail={}",
+                                key,
+                                v.get("detail").and_then(|x| x.as_str()).unwrap_or("")
+                            ));
+                        }
+                    }
+                }
+                Err(e) => last_err = Some(e),
+            }
+        }
+        if produced == 0 {
+            t.harness_error = Some(format!(
+                "a failing run of class {key} could not be minimised/replayed: {}",
+                last_err.unwrap_or_default()
+            ));
+        }
+    }
+    t
+}
+
+fn read_hashes(dir: &str, nw: u64) -> Vec<u64> {
+    let mut all = vec![];
+    for w in 0..nw {
+        if let Ok(b) = std::fs::read(format!("{dir}/hashes_{w}.bin")) {
+            for c in b.chunks_exact(8) {
+                all.push(u64::from_le_bytes(c.try_into().unwrap()));
+            }
+        }
+    }
+    all
+}
+
+fn rule_text(prop: &str) -> &'static str {
+    match prop {
+        "C17" => "one case = one simulated world: seeded (grammar | doc grammar, input sampled from the grammar, breakpoint set, controller command script of personality P/R/I, channel capacities) x seeded schedule (uniform/sticky/PCT-like/starve); distinct = distinct hash of the full seam-event history; non-trivial = at least one context switch between seam operations of different threads (or a fired fault)",
+        "C12" => "one case = one parse job swept over EVERY call-limit value 1..N+1 (N = counted calls of the unlimited parse; sampled only when N+1 exceeds the per-tier cap) or one configuration world (caller threads + configurator thread under a seeded schedule); distinct = distinct (grammar, rule, input) job hash resp. distinct world history hash; non-trivial = the job has at least one refusal point resp. the world has a cross-thread context switch",
+        _ => "one case = one parse job compared with error detail off vs on (without limit and at enumerated/sampled refusal points) or one configuration world in which another simulated thread flips the switch; distinct = distinct job hash resp. world history hash; non-trivial = the parse fails or a refusal point was crossed resp. a cross-thread context switch happened",
+    }
+}
+
+fn components() -> Value {
+    json!({
+        "real_code": ["pest (parser_state, error, position, stack, iterators)", "pest_meta (meta-parser, validator, optimizer inside every run)", "pest_vm", "pest_derive/pest_generator output for json/toml/http/sql and the meta grammar (C12/C15)", "pest_debugger/src/lib.rs (every line except the use-std block)"],
+        "stubbed_or_modelled": ["std::thread::{spawn,park,JoinHandle,Thread::unpark} -> simstd on shuttle-engine coroutines (own park token)", "std::sync::{Mutex, atomic::AtomicBool (SeqCst only), mpsc::sync_channel capacity>=1} -> simstd", "client of the debugger -> scripted controller", "other caller threads / configurator -> scripted"],
+        "not_simulated": ["debugger/src/main.rs (rustyline/reqwest CLI)"]
+    })
+}
+
+fn check(args: &[String]) -> i32 {
+    let prop = args.get(2).cloned().unwrap_or_default();
+    if !["C12", "C15", "C17"].contains(&prop.as_str()) {
+        eprintln!("usage: pestsim check <C12|C15|C17> [--tier quick|thorough]");
+        return 2;
+    }
+    let tier = arg_val(args, "--tier")
+        .or_else(|| std::env::var("VERIF_TIER").ok())
+        .unwrap_or_else(|| "quick".into());
+    let tier = if tier == "thorough" { "thorough" } else { "quick" }.to_string();
+    let seed = verif_seed();
+    let spurious = has_flag(args, "--with-spurious-wake");
+    let nw: u64 = arg_val(args, "--workers").and_then(|x| x.parse().ok()).unwrap_or(16);
+    let (mut bsecs, maxr) = budget(&prop, &tier);
+    if let Some(b) = arg_val(args, "--budget-s").and_then(|x| x.parse().ok()) {
+        bsecs = b;
+    }
+    let max_runs: u64 = arg_val(args, "--max-runs").and_then(|x| x.parse().ok()).unwrap_or(maxr);
+    println!("VERIF_SEED={seed} property={prop} tier={tier} workers={nw} worker_budget_s={bsecs}");
+    let t0 = Instant::now();
+    let dir = format!("/verif/target/run/{prop}-{tier}-{}", std::process::id());
+    let _ = std::fs::remove_dir_all(&dir);
+    std::fs::create_dir_all(&dir).unwrap();
+    let mut children = vec![];
+    for w in 0..nw {
+        let errf = std::fs::File::create(format!("{dir}/stderr_{w}.txt")).unwrap();
+        let mut c = Command::new(self_exe());
+        c.args([
+            "worker",
+            &prop,
+            "--seed",
+            &seed.to_string(),
+            "--wid",
+            &w.to_string(),
+            "--nw",
+            &nw.to_string(),
+            "--budget-s",
+            &bsecs.to_string(),
+            "--max-runs",
+            &max_runs.to_string(),
+            "--out",
+            &dir,
+            "--tier",
+            &tier,
+        ]);
+        if spurious {
+            c.arg("--with-spurious-wake");
+        }
+        c.stdout(Stdio::null()).stderr(Stdio::from(errf));
+        children.push((w, c.spawn().expect("spawn worker")));
+    }
+    // watchdog: a world that loops without a seam operation cannot be pre-empted by the engine
+    let deadline = Instant::now() + Duration::from_secs(bsecs + 180 + bsecs / 2);
+    let mut hung: Vec<u64> = vec![];
+    let mut failed: Vec<(u64, i32)> = vec![];
+    for (w, mut c) in children {
+        loop {
+            match c.try_wait() {
+                Ok(Some(st)) => {
+                    if !st.success() {
+                        failed.push((w, st.code().unwrap_or(-1)));
+                    }
+                    break;
+                }
+                Ok(None) => {
+                    if Instant::now() > deadline {
+                        let _ = c.kill();
+                        let _ = c.wait();
+                        hung.push(w);
+                        break;
+                    }
+                    std::thread::sleep(Duration::from_millis(100));
+                }
+                Err(_) => break,
+            }
+        }
+    }
+    if !failed.is_empty() {
+        for (w, code) in &failed {
+            let tail = std::fs::read_to_string(format!("{dir}/stderr_{w}.txt")).unwrap_or_default();
+            let tail: Vec<&str> = tail.lines().rev().take(5).collect();
+            println!("HARNESS-ERROR worker {w} exited with {code}: {tail:?}");
+        }
+        return 2;
+    }
+    let mut merged = Value::Object(Map::new());
+    for w in 0..nw {
+        if hung.contains(&w) {
+            continue;
+        }
+        let p = format!("{dir}/worker_{w}.json");
+        match std::fs::read_to_string(&p).ok().and_then(|t| serde_json::from_str::<Value>(&t).ok()) {
+            Some(v) => merge(&mut merged, &v),
+            None => {
+                println!("HARNESS-ERROR worker {w} left no report");
+                return 2;
+            }
+        }
+    }
+    let mut hashes = read_hashes(&dir, nw);
+    hashes.sort_unstable();
+    hashes.dedup();
+    let distinct = hashes.len() as u64;
+    let evaluations = merged.get("runs").and_then(|x| x.as_u64()).unwrap_or(0);
+    let violations: Vec<Value> = merged
+        .get("violations")
+        .and_then(|x| x.as_array())
+        .cloned()
+        .unwrap_or_default();
+    let mut tri = triage(&prop, seed, &violations, spurious);
+    // a hung worker is a liveness failure of the run it was executing
+    let mut exit = 0;
+    for w in &hung {
+        std::fs::create_dir_all("/verif/replays").ok();
+        let path = format!("/verif/replays/{prop}-{seed}-hang-worker{w}.json");
+        let hb = std::fs::read_to_string(format!("{dir}/hb_{w}")).unwrap_or_default();
+        let v = json!({"property": prop, "kind": "hang", "class": "hang", "signature": "",
+            "detail": "worker did not finish: a simulated world loops without reaching any scheduling point",
+            "verif_seed": seed, "worker": w, "workers": nw, "last_heartbeat_index": hb.trim(), "tier": tier});
+        std::fs::write(&path, serde_json::to_string_pretty(&v).unwrap()).ok();
+        tri.lines.push(format!("VIOLATION property={prop} replay={path}"));
+        tri.violations += 1;
+    }
+    for l in &tri.lines {
+        println!("{l}");
+    }
+    if let Some(e) = &tri.harness_error {
+        println!("HARNESS-ERROR {e}");
+        exit = 2;
+    }
+    if tri.violations > 0 {
+        exit = 1;
+    }
+    let wall = t0.elapsed().as_secs_f64();
+    let worker_wall = merged.get("wall_s").and_then(|x| x.as_f64()).unwrap_or(wall).max(0.001);
+    let samples = merged.get("samples").cloned().unwrap_or(json!([]));
+    let mut coverage = json!({
+        "evaluations": evaluations,
+        "distinct_nontrivial": distinct,
+        "rule": rule_text(&prop),
+        "samples": samples,
+        "exhaustive": false,
+        "runs_per_hour": (evaluations as f64 / worker_wall * 3600.0) as u64,
+        "seeds": {"VERIF_SEED": seed, "run_seed": "splitmix64(VERIF_SEED, property, run index); streams workload/schedule/strategy/faults derived by label"},
+        "simulated_time_scheduler_steps": merged.get("scheduler_steps").cloned().unwrap_or(json!(0)),
+        "workers": nw,
+        "components": components(),
+        "known_findings_seen": tri.known_seen.iter().map(|(k, v)| json!({"id": k, "occurrences": v})).collect::<Vec<_>>(),
+        "hung_workers": hung,
+    });
+    if let (Value::Object(c), Value::Object(m)) = (&mut coverage, &merged) {
+        for (k, v) in m {
+            if ["violations", "samples", "runs", "wall_s", "scheduler_steps"].contains(&k.as_str()) {
+                continue;
+            }
+            c.insert(k.clone(), v.clone());
+        }
+    }
+    if prop == "C12" {
+        let all_ex = merged.get("all_sweeps_exhaustive").and_then(|x| x.as_bool()).unwrap_or(false);
+        coverage["exhaustive_per_workload"] = json!(all_ex);
+        coverage["fault_kinds"] = json!({
+            "F1 refusal at call index k (enumerated)": merged.get("fault_points_enumerated"),
+            "F2 re-configuration at a scheduler-chosen instant (stores landed inside a running parse)": merged.get("cfg_probes").and_then(|p| p.get("store_landed_inside_a_running_parse")),
+            "F3 thread interleaving (scheduler steps)": merged.get("scheduler_steps"),
+        });
+    } else if prop == "C15" {
+        coverage["fault_kinds"] = json!({
+            "F1 refusal at call index k crossed with detail on/off": merged.get("refusal_points_crossed"),
+            "F2 switch flipped at a scheduler-chosen instant (stores landed inside a running parse)": merged.get("cfg_probes").and_then(|p| p.get("store_landed_inside_a_running_parse")),
+            "F3 thread interleaving (scheduler steps)": merged.get("scheduler_steps"),
+        });
+    } else {
+        let p = merged.get("probes");
+        let g = |k: &str| p.and_then(|p| p.get(k)).cloned().unwrap_or(json!(0));
+        coverage["fault_kinds"] = json!({
+            "F3 thread interleaving / starvation (scheduler steps)": merged.get("scheduler_steps"),
+            "F4 spurious park return (separate unregistered configuration only)": g("spurious_wakes_fired"),
+            "F5 restart while previous parser parked": g("restart_while_parked"),
+            "F5 restart while previous parser running": g("restart_while_running"),
+            "F5 restart while previous parser blocked in send": g("restart_while_in_send"),
+            "F5 restart after previous parser finished": g("restart_after_finish"),
+            "F6 continue with no breakpoint pending": g("cont_with_no_breakpoint_pending"),
+            "F6 coalesced continue tokens": g("coalesced_unpark_tokens"),
+            "F7 breakpoint set mutated during a run": g("breakpoint_mutation_during_run"),
+            "slow consumer: send blocked on full channel": g("send_blocked_on_full_channel"),
+        });
+    }
+    let evidence = json!({
+        "property_id": prop,
+        "tier": tier,
+        "seed": seed,
+        "level": level_of(&prop),
+        "coverage": coverage,
+        "assumptions": [
+            "every atomic ordering is treated as sequentially consistent (shuttle-style model); weak-memory reorderings are not explored",
+            "std::thread::park does not return spuriously (true of std's futex/condvar parkers today; the separate --with-spurious-wake configuration shows what happens otherwise)",
+            "channel capacity >= 1 (rendezvous channels are out of scope, see DESIGN.md 4.3)",
+            "the client keeps every receiver alive while a parser thread may still send",
+            "generated grammars: rule i references only rules j > i plus one guarded self-reference; POP/PEEK only after a PUSH in the same sequence",
+        ],
+        "wall_s": wall,
+        "violations": tri.violations,
+    });
+    std::fs::create_dir_all("/verif/evidence").ok();
+    let ep = if spurious {
+        format!("/verif/target/run/{prop}-spurious-evidence.json")
+    } else {
+        format!("/verif/evidence/{prop}.json")
+    };
+    std::fs::write(&ep, serde_json::to_string_pretty(&evidence).unwrap()).expect("write evidence");
+    println!(
+        "{prop} {tier}: {evaluations} simulated runs, {distinct} distinct non-trivial, {} violations, {:.1}s; evidence {ep}",
+        tri.violations, wall
+    );
+    if exit == 0 {
+        let _ = std::fs::remove_dir_all(&dir);
+    }
+    exit
+}
+
+fn worker_main(args: &[String]) -> i32 {
+    let a = worker::WorkerArgs {
+        prop: args.get(2).cloned().unwrap_or_default(),
+        seed: arg_val(args, "--seed").and_then(|x| x.parse().ok()).unwrap_or(1),
+        wid: arg_val(args, "--wid").and_then(|x| x.parse().ok()).unwrap_or(0),
+        nw: arg_val(args, "--nw").and_then(|x| x.parse().ok()).unwrap_or(1),
+        budget: Duration::from_secs(arg_val(args, "--budget-s").and_then(|x| x.parse().ok()).unwrap_or(10)),
+        max_runs: arg_val(args, "--max-runs").and_then(|x| x.parse().ok()).unwrap_or(u64::MAX),
+        out_dir: arg_val(args, "--out").unwrap_or_else(|| "/verif/target/run/manual".into()),
+        tier: arg_val(args, "--tier").unwrap_or_else(|| "quick".into()),
+        spurious: has_flag(args, "--with-spurious-wake"),
+        trace_runs: has_flag(args, "--trace-runs"),
+    };
+    world::init();
+    hook::install();
+    let out = match a.prop.as_str() {
+        "C17" => worker::run_c17(&a),
+        "C12" => worker::run_c12(&a),
+        "C15" => worker::run_c15(&a),
+        _ => return 2,
+    };
+    worker::write_out(&a, out);
+    0
+}
+
+fn replay_main(args: &[String]) -> i32 {
+    let Some(path) = args.get(2) else {
+        eprintln!("usage: pestsim replay <file>");
+        return 2;
+    };
+    let Ok(text) = std::fs::read_to_string(path) else {
+        eprintln!("cannot read {path}");
+        return 2;
+    };
+    let Ok(v) = serde_json::from_str::<Value>(&text) else {
+        eprintln!("{path} is not JSON");
+        return 2;
+    };
+    world::init();
+    hook::install();
+    let prop = v.get("property").and_then(|x| x.as_str()).unwrap_or("?").to_string();
+    if v.get("kind").and_then(|x| x.as_str()) == Some("hang") {
+        println!("REPLAY kind=hang: re-run `./check {prop} --tier {}` with VERIF_SEED={} to re-execute the hung worker's runs",
+            v.get("tier").and_then(|x| x.as_str()).unwrap_or("quick"), v.get("verif_seed").and_then(|x| x.as_u64()).unwrap_or(1));
+        return 2;
+    }
+    match minimise::replay(&v) {
+        Ok(r) => {
+            println!(
+                "REPLAY reproduced={} class={} signature={} hash_match={} detail={}",
+                r.reproduced, r.class, r.signature, r.hash_matches, r.detail
+            );
+            if r.reproduced {
+                println!("VIOLATION property={prop} replay={path}");
+                1
+            } else {
+                0
+            }
+        }
+        Err(e) => {
+            println!("REPLAY error: {e}");
+            2
+        }
+    }
+}
+
+/// Determinism self-test: the same runs executed twice, in different processes and at different
+/// worker counts, must give identical per-run history hashes and outcomes.
+fn selftest(args: &[String]) -> i32 {
+    let prop = args.get(2).cloned().unwrap_or_else(|| "C17".into());
+    let runs: u64 = arg_val(args, "--runs").and_then(|x| x.parse().ok()).unwrap_or(6000);
+    let seed = verif_seed();
+    let base = format!("/verif/target/run/selftest-{prop}-{}", std::process::id());
+    let _ = std::fs::remove_dir_all(&base);
+    let mut maps: Vec<BTreeMap<u64, String>> = vec![];
+    for (round, nw) in [(0u64, 16u64), (1, 16), (2, 4), (3, 1), (4, 7)] {
+        let dir = format!("{base}/r{round}");
+        std::fs::create_dir_all(&dir).unwrap();
+        let per = runs.div_ceil(nw);
+        let mut ch = vec![];
+        for w in 0..nw {
+            let c = Command::new(self_exe())
+                .args([
+                    "worker", &prop, "--seed", &seed.to_string(), "--wid", &w.to_string(), "--nw", &nw.to_string(),
+                    "--budget-s", "100000", "--max-runs", &per.to_string(), "--out", &dir, "--trace-runs",
+                ])
+                .stdout(Stdio::null())
+                .stderr(Stdio::null())
+                .spawn()
+                .unwrap();
+            ch.push(c);
+        }
+        for mut c in ch {
+            let _ = c.wait();
+        }
+        let mut m = BTreeMap::new();
+        for w in 0..nw {
+            let t = std::fs::read_to_string(format!("{dir}/runs_{w}.txt")).unwrap_or_default();
+            for l in t.lines() {
+                let mut it = l.splitn(2, ' ');
+                if let (Some(i), Some(rest)) = (it.next(), it.next()) {
+                    if let Ok(i) = i.parse::<u64>() {
+                        if i < runs {
+                            m.insert(i, rest.to_string());
+                        }
+                    }
+                }
+            }
+        }
+        println!("round {round}: {nw} worker processes, {} runs recorded", m.len());
+        maps.push(m);
+    }
+    let mut diffs = 0;
+    let first = &maps[0];
+    for (r, m) in maps.iter().enumerate().skip(1) {
+        for (i, v) in first {
+            match m.get(i) {
+                Some(v2) if v2 == v => {}
+                other => {
+                    diffs += 1;
+                    if diffs < 10 {
+                        println!("DIVERGENCE run {i}: round0 {v:?} round{r} {other:?}");
+                    }
+                }
+            }
+        }
+        if m.len() != first.len() {
+            println!("round {r} recorded {} runs, round 0 {}", m.len(), first.len());
+            diffs += 1;
+        }
+    }
+    let _ = std::fs::remove_dir_all(&base);
+    println!("determinism self-test {prop}: {} runs x 5 rounds (16,16,4,1,7 processes), {diffs} divergences", first.len());
+    if diffs == 0 {
+        0
+    } else {
+        2
+    }
+}
+
+fn main() {
+    let args: Vec<String> = std::env::args().collect();
+    let code = match args.get(1).map(|s| s.as_str()) {
+        Some("check") => check(&args),
+        Some("worker") => worker_main(&args),
+        Some("replay") => replay_main(&args),
+        Some("minimise") => minimise_main(&args),
+        Some("selftest-determinism") => selftest(&args),
+        _ => {
+            eprintln!("usage: pestsim check|worker|replay|selftest-determinism ...");
+            2
+        }
+    };
+    let _ = Path::new("/");
+    std::process::exit(code);
 }
